@@ -105,6 +105,10 @@ func c13Wrappers(closed bool) []func(string) string {
 		func(e string) string { return "strcat('p', tolower(" + e + "))" },
 		func(e string) string { return "iff(true, " + e + ", null)" },
 		func(e string) string { return "not(isnull((" + e + ")))" },
+		func(e string) string { return "iff(1 == 2, 'x', " + e + ")" },
+		func(e string) string { return "iif(true, 1, iff(false, 2, (" + e + ")))" },
+		func(e string) string { return "strcat('a', 'b', 'c', " + e + ")" },
+		func(e string) string { return "f(g(h(1, 2, " + e + ")))" },
 		func(e string) string { return "g(" + e + ")[1]" },
 		func(e string) string { return "g(1)[" + e + "]" },
 	}
@@ -245,7 +249,7 @@ func c13Main(r *run.Runner) {
 		}
 		// row counts
 		for _, form := range []string{"T | take %s", "T | limit %s", "T | top %s by a", "T | where a | take %s | count", "T | join (R | take %s) on k", "T | join (R | top %s by y) on k"} {
-			for _, n := range []string{"0", "1", "007", "0x10", "100000", "(3)", "((3))"} {
+			for _, n := range []string{"0", "1", "007", "0x10", "100000", "(3)", "((3))", "2147483648", "4294967296", "9223372036854775807", "9223372036854775808", "18446744073709551615", "0x7FFFFFFFFFFFFFFF", "0xFFFFFFFFFFFFFFFF", "(0x8000000000000000)", "00000000000000000000000000000012"} {
 				mustCompile(w, fmt.Sprintf(form, n), "row-count-integer")
 			}
 			for _, n := range []string{"1.5", "1e3", ".5", "1.", "0.0", "1E2", "'x'", "\"3\"", "(1.5)", "((2.5))", "('x')"} {
